@@ -38,6 +38,19 @@ make no difference.  Window queries are one atom only between two mutator calls
 (`EpochPathModel`).  Values are followed through definitions that *reach* a use on a
 path, copies `a = b` are looked through.
 
+Locals mean what they hold on the path (`_kit_c12.Values`): each modelled path carries,
+per local, an abstract value (constant / not-None object / "truth of E as evaluated at
+position j") and the root definition it came from.  A path on which a branch outcome
+contradicts such a value (`x = None ... if x is not None:` true) is not a path of the
+model, a branch on a name that holds a condition states that condition (however often
+the name is assigned), and "the same number" is identity of root definitions, not of
+names.  So a decision carried from where it is taken to where it is used in a sentinel,
+a flag, a named condition or a copy reads like the inline compound condition.
+Conditional expressions are normalised on the private copy (`desugared`): in statement
+position to if statements, in boolean position to and/or/not (`bool_form`: predicate
+helpers with several returns arrive as conditional-expression trees), in leading value
+position through a fresh local (`hoist_leading_ifexps`).
+
 The ReplayWindow methods are read from a private re-parse with helper expansion but
 without the engine's copy propagation (see `sound_methods` for the engine defect this
 works around); the symbolic execution substitutes locals itself, flow-sensitively.
@@ -52,6 +65,7 @@ from itertools import product
 from ..rulekit import *
 from ..norm import Normalizer, Poly, NormError
 from ..paths import PathModel, atom_key
+from ._kit_c12 import bool_form, node_writes, Values, State, hoist_leading_ifexps
 
 R = Rules(
     "C12",
@@ -254,13 +268,27 @@ def _state_reads(e, attrs):
 class EpochPathModel(PathModel):
     """Path model in which a test that reads mutable object state through a query method (`w.is_initialized()`,
     `w.is_valid(n)`) is one atom only among the occurrences that have the same set of possibly preceding mutator
-    statements: two occurrences with a mutator call in between are decided independently."""
+    statements: two occurrences with a mutator call in between are decided independently.
 
-    def __init__(self, fi, query_attrs, mutator_nodes, **kw):
+    With `values` (a `_kit_c12.Values`) the paths on which a branch outcome contradicts the value a local has there
+    (`x = None ... if x is not None:` taken as true, `flag = False ... if flag:` taken as true, `v = E(...)` ...
+    `if v is None:` taken as true) are not paths of the model."""
+
+    def __init__(self, fi, query_attrs, mutator_nodes, values=None, **kw):
         self._qattrs = tuple(query_attrs)
         self._mut_nodes = set(mutator_nodes)
         self._reach_of = {}
+        self._values = values
+        self._feasible = None
         super().__init__(fi, **kw)
+
+    def paths(self):
+        if self._feasible is None:
+            ps = super().paths()
+            if self._values is not None:
+                ps = [p for p in ps if self._values.feasible(p.nodes)]
+            self._feasible = ps
+        return self._feasible
 
     def key_of(self, node):
         k, pol = super().key_of(node)
@@ -275,40 +303,11 @@ class EpochPathModel(PathModel):
         return k, pol
 
 
-def _node_writes(nd):
-    """(names bound, attribute/subscript base chains stored, ast parts evaluated) by one CFG node."""
-    a = nd.ast
-    if a is None or nd.kind in ("T", "F", "join", "entry", "exit", "rexit"):
-        return set(), set(), []
-    if nd.kind == "for":
-        parts = [a.target, a.iter]
-    elif nd.kind == "with":
-        parts = [x for it in a.items for x in (it.context_expr, it.optional_vars) if x is not None]
-    elif nd.kind == "handler":
-        return ({a.name} if getattr(a, "name", None) else set()), set(), []
-    else:
-        parts = [a]
-    names, chains = set(), set()
-    for part in parts:
-        for n in walk_no_nested(part):
-            if isinstance(n, ast.Name) and isinstance(n.ctx, (ast.Store, ast.Del)):
-                names.add(n.id)
-            elif isinstance(n, ast.NamedExpr):
-                names.add(n.target.id)
-            elif isinstance(n, (ast.Attribute, ast.Subscript)) and isinstance(n.ctx, (ast.Store, ast.Del)):
-                b = n
-                while isinstance(b, ast.Subscript):
-                    b = b.value
-                c = chain(b)
-                if c:
-                    chains.add(c)
-            elif isinstance(n, (ast.FunctionDef, ast.AsyncFunctionDef, ast.ClassDef)) and n is not part:
-                names.add(n.name)
-    return names, chains, parts
+_node_writes = node_writes  # (moved to the kit; the name is kept)
 
 
 class SiteFacts:
-    def __init__(self, fi, query_attrs=(), mutator_attrs=(), state_fields=()):
+    def __init__(self, fi, query_attrs=(), mutator_attrs=(), state_fields=(), prog=None):
         self.fi = fi
         self.cfg = cfg = cfg_of(fi)
         self.qattrs = tuple(query_attrs)
@@ -316,9 +315,10 @@ class SiteFacts:
         self.sfields = tuple(state_fields)
         self._w = {}
         self._cache = {}
-        self._ai, self._ex, self._pf = {}, {}, {}
+        self._ai, self._br, self._pf, self._st = {}, {}, {}, {}
         self.mut_nodes = {n.id for n in cfg.nodes if self._mutates(n)}
-        self.pm = EpochPathModel(fi, self.qattrs, self.mut_nodes, include_exc=True, max_paths=60000)
+        self.V = Values(fi, cfg, prog)
+        self.pm = EpochPathModel(fi, self.qattrs, self.mut_nodes, values=self.V, include_exc=True, max_paths=60000)
 
     def _mutates(self, nd):
         names, chains, parts = self._writes(nd)
@@ -352,44 +352,66 @@ class SiteFacts:
             i = self._ai[id(x)] = (xnames, xchains, _state_reads(x, self.qattrs), atom_key(x), x)
         return i
 
-    def _expand(self, n):
-        r = self._ex.get(n)
+    def _branches(self, p):
+        """{position: [(atomic expr, polarity, position of evaluation | None)]} for the branch outcomes of path p, names
+        being read as what they hold on that path (`Values.expand`)."""
+        r = self._br.get(id(p))
         if r is None:
-            nd = self.cfg.nodes[n]
-            r = []
-            if nd.kind in ("T", "F") and isinstance(nd.ast, ast.expr):
-                r = expand_fact(self.fi.node, nd.ast, nd.kind == "T")
-            self._ex[n] = r
+            r = {}
+            V, cfg, nodes = self.V, self.cfg, p.nodes
+            st = State()
+            last = len(nodes) - 1
+            for j, n in enumerate(nodes):
+                nd = cfg.nodes[n]
+                if nd.kind in ("T", "F"):
+                    if isinstance(nd.ast, ast.expr):
+                        r[j] = V.expand(nd.ast, nd.kind == "T", st.env)
+                else:
+                    V.step(st, n, nodes[j + 1] if j < last else None, j)
+            self._br[id(p)] = r
         return r
 
-    def _path_facts(self, nodes, transparent=frozenset()):
-        """{(atom key, truth): (expr, pol, via)} live at the end of the node sequence.  Mutator statements in
+    def state(self, p, idx):
+        """Values and root definitions of the locals when path p arrives at position idx."""
+        k = (id(p), idx)
+        if k not in self._st:
+            self._st[k] = self.V.state_before(p.nodes, idx)
+        return self._st[k]
+
+    def states_at(self, nid):
+        """[(path, position, State)] for every arrival of a modelled path at node nid."""
+        out = []
+        for p in self.pm.paths_through(nid):
+            for i, n in enumerate(p.nodes):
+                if n == nid:
+                    out.append((p, i, self.state(p, i)))
+        return out
+
+    def _path_facts(self, p, upto, transparent=frozenset()):
+        """{(atom key, truth): (expr, pol, via)} live when path p arrives at position `upto`.  Mutator statements in
         `transparent` do not invalidate object-state facts (for "the state in which that very mutator was called")."""
-        key = (tuple(nodes), transparent)
+        key = (id(p), upto, transparent)
         if key in self._pf:
             return self._pf[key]
         cfg = self.cfg
-        pos = {}
+        nodes = p.nodes
+        br = self._branches(p)
         live = {}
-        for j, n in enumerate(nodes):
-            pos[n] = j  # last occurrence so far
-            nd = cfg.nodes[n]
-            if nd.kind in ("T", "F"):
-                for x, pol, d in self._expand(n):
+        for j in range(upto):
+            n = nodes[j]
+            facts = br.get(j)
+            if facts is not None:
+                for x, pol, at in facts:
                     xnames, xchains, xstate, (k, kp), _ = self._atom_info(x)
-                    if d is not None:
-                        # the fact was evaluated where the local was defined: nothing it reads may change from there on
-                        dn = [q for q in cfg.locate(d) if q in pos and pos[q] < j]
-                        if not dn:
-                            continue
-                        j0 = max(pos[q] for q in dn)
-                        if any(self._kills(q, x, xnames, xchains, xstate, transparent) for q in nodes[j0 + 1:j]):
+                    if at is not None:
+                        # the fact was evaluated where the local was bound: nothing it reads may change from there on
+                        if any(self._kills(q, x, xnames, xchains, xstate, transparent) for q in nodes[at + 1:j]):
                             continue
                     # a later decision on the same atom replaces an earlier one
                     live.pop((k, not (kp == pol)), None)
-                    live[(k, kp == pol)] = (x, pol, (d, n) if d is not None else None)
-            elif live:
-                names, chains, _ = self._writes(nd)
+                    live[(k, kp == pol)] = (x, pol, (at, n) if at is not None else None)
+            elif live and cfg.nodes[n].kind not in ("T", "F"):
+                names, chains, _ = self._writes(cfg.nodes[n])
                 if names or chains or n in self.mut_nodes:
                     for fk in [fk for fk, (x, pol, via) in live.items() if self._kills(n, x, *self._atom_info(x)[:3], transparent)]:
                         del live[fk]
@@ -406,7 +428,7 @@ class SiteFacts:
         for p in self.pm.paths_through(nid):
             idxs = [i for i, n in enumerate(p.nodes) if n == nid]
             for i in idxs:
-                live = self._path_facts(p.nodes[:i], transparent)
+                live = self._path_facts(p, i, transparent)
                 if common is None:
                     common = dict(live)
                 else:
@@ -431,9 +453,9 @@ class SiteFacts:
         for p in self.pm.paths_through(nid):
             i = p.nodes.index(nid)
             got = {}
-            for n in p.nodes[:i]:
-                if self.cfg.nodes[n].kind in ("T", "F"):
-                    for x, pol, d in self._expand(n):
+            for j, facts in self._branches(p).items():
+                if j < i:
+                    for x, pol, at in facts:
                         k, kp = self._atom_info(x)[3]
                         got[(k, kp == pol)] = (x, pol, None)
             common = got if common is None else {k: v for k, v in common.items() if k in got}
@@ -441,13 +463,49 @@ class SiteFacts:
             return facts_at(self.cfg, self.fi.node, nid)
         return list(common.values())
 
+    def notnone_at(self, nid, name):
+        """On every modelled arrival at node nid a test `<x> is not None` holds for a local x that has the same root
+        definition as `name` there (the value was tested under another name: `opt = d.pop(K, None)`,
+        `if opt is None: ... else: piv = opt`), or `name` is bound to something that is not None."""
+        sts = self.states_at(nid)
+        if not sts:
+            return False
+        for p, i, st in sts:
+            v = st.env.get(name)
+            if v is not None and ((v[0] == "const" and v[1] is not None) or v[0] == "nonnull"):
+                continue
+            o = st.origin_of(name)
+            ok = False
+            for x, pol, _via in self._path_facts(p, i).values():
+                if isinstance(x, ast.Compare) and len(x.ops) == 1 and isinstance(x.ops[0], (ast.Is, ast.IsNot, ast.Eq, ast.NotEq)):
+                    l, r = x.left, x.comparators[0]
+                    if isinstance(l, ast.Constant):
+                        l, r = r, l
+                    if isinstance(l, ast.Name) and isinstance(r, ast.Constant) and r.value is None and isinstance(x.ops[0], (ast.IsNot, ast.NotEq)) == pol:
+                        ok = ok or st.origin_of(l.id) == o
+            if not ok:
+                return False
+        return True
+
+    def nonnull_at(self, nid, name):
+        """Is the local known not to be None on every modelled arrival at node nid (by the value it was bound to on
+        that path: a constant other than None, a constructed object, the result of a conversion)?"""
+        sts = self.states_at(nid)
+        if not sts:
+            return False
+        for _p, _i, st in sts:
+            v = st.env.get(name)
+            if v is None or not ((v[0] == "const" and v[1] is not None) or v[0] == "nonnull"):
+                return False
+        return True
+
 
 def window_site_facts(prog, fi):
     """SiteFacts of a function with respect to the replay window's queries and mutators (one per program and function:
     the path enumeration is shared by the clauses)."""
     cache = prog.__dict__.setdefault("_c12_sitefacts", {})
     if fi.qn not in cache or cache[fi.qn].fi is not fi:
-        cache[fi.qn] = SiteFacts(fi, query_attrs=WINDOW_QUERIES, mutator_attrs=WINDOW_MUTATORS, state_fields=WINDOW_FIELDS)
+        cache[fi.qn] = SiteFacts(fi, query_attrs=WINDOW_QUERIES, mutator_attrs=WINDOW_MUTATORS, state_fields=WINDOW_FIELDS, prog=prog)
     return cache[fi.qn]
 
 
@@ -984,8 +1042,46 @@ class _IfExpToIf(ast.NodeTransformer):
             return st
         a = self.visit(ast.copy_location(mk(st, v.body), st))
         b = self.visit(ast.copy_location(mk(st, v.orelse), st))
-        new = ast.If(test=v.test, body=a if isinstance(a, list) else [a], orelse=b if isinstance(b, list) else [b])
+        new = ast.If(test=bool_form(v.test), body=a if isinstance(a, list) else [a], orelse=b if isinstance(b, list) else [b])
         return ast.fix_missing_locations(ast.copy_location(new, st))
+
+    # A conditional expression in boolean position (the engine expands a predicate helper with several returns into
+    # one) is the boolean formula (c and A) or (not c and B): the CFG then decomposes it like any other test.
+    def visit_If(self, st):
+        st.test, pre = hoist_leading_ifexps(st.test, self._fresh, boolean=True)
+        st.test = bool_form(st.test)
+        self.generic_visit(st)
+        return self._bound(pre, st)
+
+    # A conditional expression in value position that is the first thing the statement evaluates
+    # (`(n if ok else None) is not None`, `w.strike_out(n if ok else None)`: what the engine's copy propagation makes of
+    # `x = n if ok else None` and its uses) is bound to a fresh local first, which the rewrite above turns into an if
+    # statement; the local is then followed like any other (`Values`).
+    def _fresh(self):
+        self._n = getattr(self, "_n", 0) + 1
+        return "__c12_choice%d" % self._n
+
+    def _bound(self, pre, st):
+        if not pre:
+            return st
+        out = []
+        for nm, v in pre:
+            a = ast.copy_location(ast.Assign(targets=[ast.Name(id=nm, ctx=ast.Store())], value=v), st)
+            r = self.visit_Assign(a)
+            out.extend(r if isinstance(r, list) else [r])
+        sts = st if isinstance(st, list) else [st]
+        for x in out:
+            ast.fix_missing_locations(x)
+        return out + sts
+
+    def visit_Expr(self, st):
+        st.value, pre = hoist_leading_ifexps(st.value, self._fresh)
+        return self._bound(pre, st)
+
+    def visit_While(self, st):
+        st.test = bool_form(st.test)
+        self.generic_visit(st)
+        return st
 
     def visit_Assign(self, st):
         return self._split(st, lambda s: s.value, lambda s, v: ast.Assign(targets=s.targets, value=v))
@@ -1028,10 +1124,46 @@ def desugared(prog, fi):
     return cache[fi.qn]
 
 
-def call_unit(prog, root):
+def _local_values(fnode, e, depth=4):
+    """The expressions a value may come from when locals are looked through: all plain assignments of a name
+    (flow-insensitive: a superset of what reaches any use), both arms of a conditional expression.  [] when a name is
+    bound by something the rule cannot read (loop target, unpacking, parameter)."""
+    if isinstance(e, ast.IfExp):
+        a, b = _local_values(fnode, e.body, depth), _local_values(fnode, e.orelse, depth)
+        return a + b if a and b else []
+    if isinstance(e, ast.NamedExpr):
+        return _local_values(fnode, e.value, depth)
+    if not isinstance(e, ast.Name):
+        return [e]
+    if not depth:
+        return []
+    ws = writes_to_name(fnode, e.id)
+    if not ws:
+        return []
+    out = []
+    for w in ws:
+        if isinstance(w, ast.Assign) and all(isinstance(t, ast.Name) for t in w.targets):
+            v = w.value
+        elif isinstance(w, ast.AnnAssign) and isinstance(w.target, ast.Name):
+            v = w.value
+        elif isinstance(w, ast.NamedExpr):
+            v = w.value
+        else:
+            return []
+        got = _local_values(fnode, v, depth - 1)
+        if not got:
+            return []
+        out.extend(got)
+    return out
+
+
+def call_unit(prog, root, view=None):
     """{short name: (FuncInfo, [(calling FuncInfo, call node)])}: `root` and, transitively, the methods of its own
     class (MRO) that it calls as `self.<m>(...)`.  Methods merely *referred to* (`ReplayWindow(n, self._changed)`) are
-    not part of the unit: they run later, not as part of root."""
+    not part of the unit: they run later, not as part of root.  `view` maps each function to the (private) copy the
+    caller wants to read, e.g. `desugared`; call nodes and FuncInfos in the result belong to those copies."""
+    view = view or (lambda f: f)
+    root = view(root)
     unit = {root.short: (root, [])}
     if root.cls is None:
         return unit
@@ -1044,6 +1176,7 @@ def call_unit(prog, root):
                 if g is None:
                     continue
                 if g.short not in unit:
+                    g = view(g)
                     unit[g.short] = (g, [])
                     todo.append(g)
                 unit[g.short][1].append((f, c))
@@ -1239,6 +1372,30 @@ def _verdict_none(facts, v):
     return has_fact(facts, "%s is None" % v, True) or has_fact(facts, "%s == None" % v, True) or any(isinstance(e, ast.Name) and e.id == v and not pol for e, pol, _ in facts)
 
 
+def _verdict_none_value(sf, nid, v):
+    """The verdict variable is bound to None on every modelled arrival at the node."""
+    sts = sf.states_at(nid)
+    return bool(sts) and all(st.env.get(v) == ("const", None) for _p, _i, st in sts)
+
+
+def _number_roots(ctx, u, calls):
+    """({origin key: (statement, value, name)}, [(call, name)]) -- the root definitions that reach, on some modelled
+    path, the (local) argument of the given window calls; second: calls that a name reaches undefined."""
+    sf, cfg = u.sf, u.cfg
+    roots, entry = {}, []
+    for c in calls:
+        arg = _arg0(c, ctx.prog)
+        if not isinstance(arg, ast.Name):
+            continue
+        for p, i, st in sf.states_at(cfg.loc1(c)):
+            o = st.origin_of(arg.id)
+            if o[0] == "def":
+                roots[o] = sf.V.defsite[o]
+            elif (c, arg.id) not in entry:
+                entry.append((c, arg.id))
+    return roots, entry
+
+
 @R.clause("C12.a", "window mutations in unprotect only after a normal return of decrypt and of the post-decrypt checks; strike_out guards; window tests precede decrypt; the number is the partial IV")
 def a(ctx):
     u = _unprotect(ctx)
@@ -1260,9 +1417,11 @@ def a(ctx):
     for c in u.post_calls:
         ctx.ob("_post_decrypt_checks runs only after decrypt returned normally", after_normal(cfg, u.dec, cfg.loc1(c)), fi, c)
 
-    # strike_out guards: facts that hold on every modelled path to the call (not: `if` statements around it)
+    # strike_out guards: facts that hold on every modelled path to the call (not: `if` statements around it).  A path
+    # on which a branch outcome contradicts the value a local has there is not a path of the model (`Values.feasible`):
+    # behind `if to_strike is not None:` only the paths through `to_strike = <number>` remain, with everything that
+    # guarded that assignment.
     sf = u.sf
-    checked = None
     for c in u.strikes:
         nid = cfg.loc1(c)
         facts = sf.at(nid)
@@ -1270,16 +1429,18 @@ def a(ctx):
         ctx.need(arg is not None, "strike_out call with unexpected arity")
         ctx.ob("strike_out is guarded by the message being a request", any(_side(e, pol, u.msg) == "request" for e, pol, _ in facts), fi, c,
                detail="facts at the call: %s" % show_facts(facts))
-        ctx.ob("strike_out is guarded by the number being present (is not None)", has_fact(facts, "$x is not None", True, {"x": arg}), fi, c,
+        # present: `<arg> is not None` holds at the call, or the local was bound to something that is not None (the
+        # converted integer, a constructed object, a constant) on every path that arrives here
+        present = has_fact(facts, "$x is not None", True, {"x": arg}) or (isinstance(arg, ast.Name) and sf.nonnull_at(nid, arg.id))
+        ctx.ob("strike_out is guarded by the number being present (is not None)", present, fi, c,
                detail="facts at the call: %s" % show_facts(facts))
-        ctx.ob("strike_out is guarded by no pending replay verdict (verdict is None)", _verdict_none(facts, u.v), fi, c,
+        ctx.ob("strike_out is guarded by no pending replay verdict (verdict is None)", _verdict_none(facts, u.v) or _verdict_none_value(sf, nid, u.v), fi, c,
                detail="facts at the call: %s" % show_facts(facts))
         ctx.ob("the struck-out number is a plain local", isinstance(arg, ast.Name), fi, c)
-        checked = arg if isinstance(arg, ast.Name) else checked
     for c in u.inits:
         arg = _arg0(c, ctx.prog)
         ctx.need(arg is not None, "initialize_from_freshlyseen call with unexpected arity")
-        ctx.ob("the window is re-initialised from the number that was checked and authenticated", checked is not None and same(arg, checked), fi, c)
+        ctx.ob("the window is re-initialised from a plain local", isinstance(arg, ast.Name), fi, c)
 
     # the window tests lie on every request path to decrypt
     def on_response_side(nid):
@@ -1305,7 +1466,7 @@ def a(ctx):
         through = pm.paths_through(dn)
         ctx.need(bool(through), "the decrypt call lies on no modelled path of unprotect")
         for p in through:
-            live = sf._path_facts(p.nodes[:p.nodes.index(dn)])
+            live = sf._path_facts(p, p.nodes.index(dn))
             if any(_side(x, pol, u.msg) == "response" for x, pol, _ in live.values()):
                 continue
             ini = window_fact(live, "is_initialized")
@@ -1330,42 +1491,47 @@ def a(ctx):
                     break
         ctx.ob("a failed window test leads to a replay verdict before anything else happens", bad is None, fi, cfg.nodes[o].ast,
                detail=None if bad is None else "path: %s" % pm.describe(bad))
-    # same number in test, strike-out and nonce
-    for t, e in pre_valid:
-        arg = _arg0(e, ctx.prog)
-        ctx.ob("is_valid tests the number that is later struck out", arg is not None and checked is not None and same(arg, checked), fi, e)
-    if checked is not None:
-        conv = []  # (assignment, value alternative): every definition of the number that is not the sentinel None
-        for w in writes_to_name(fi.node, checked.id):
-            ctx.need(isinstance(w, ast.Assign), "the checked number is bound by something other than an assignment: %s" % stmt_text(w))
-            for v, _extra in value_alts(fi.node, w.value):
-                if not (isinstance(v, ast.Constant) and v.value is None):
-                    conv.append((w, v, _extra))
-        ctx.need(conv, "the checked number is never assigned")
+    # Same number in test, strike-out, re-initialisation and nonce.  "The same number" is decided by definitions, not
+    # by names: on every modelled path the argument of each window call is traced to its root definition (copies
+    # `a = b` are looked through where they are made), and two calls on one path must have the same root.
+    valid_calls = mcalls(fi.node, "is_valid")  # wherever the result goes (a branch, a local, an argument)
+    roots, entry = _number_roots(ctx, u, valid_calls + u.strikes + u.inits)
+    for c, nm in entry:
+        ctx.ob("the number handed to the replay window is defined in unprotect", False, fi, c, detail="%s reaches the call undefined or from outside" % nm)
+    valid_at = {cfg.loc1(e): e for e in valid_calls}
+    for c in u.strikes + u.inits:
+        arg = _arg0(c, ctx.prog)
+        if not isinstance(arg, ast.Name):
+            continue
+        bad = None
+        nid = cfg.loc1(c)
+        for p, i, st in sf.states_at(nid):
+            o = st.origin_of(arg.id)
+            for k in range(i):
+                e = valid_at.get(p.nodes[k])
+                if e is None:
+                    continue
+                a0 = _arg0(e, ctx.prog)
+                if not isinstance(a0, ast.Name) or sf.state(p, k).origin_of(a0.id) != o:
+                    bad = bad or p
+        what = "is_valid tested the number that is struck out" if c in u.strikes else "the window is re-initialised from the number that was checked and authenticated"
+        ctx.ob(what, bad is None, fi, c, detail=None if bad is None else "another definition of the number was tested on the path: %s" % pm.describe(bad))
+    conv = []  # (assignment, value, name): every root definition of the number that is not the sentinel None
+    for key, (w, v, nm) in sorted(roots.items(), key=lambda kv: (getattr(kv[1][0], "lineno", 0), getattr(kv[1][0], "col_offset", 0))):
+        ctx.need(v is not None, "the number handed to the replay window is bound by something other than an assignment: %s" % stmt_text(w))
+        if not (isinstance(v, ast.Constant) and v.value is None):
+            conv.append((w, v, nm))
+    if roots:
+        ctx.need(conv, "the number handed to the replay window is never assigned a value")
+    if conv:
         nonce_calls = [c for c in mcalls(fi.node, "_construct_nonce") if chain(c.func.value) == "self"]
         ctx.floor("_construct_nonce calls in unprotect", len(nonce_calls), 1)
         nf = ctx.prog.lookup_method(fi.cls.qn, "_construct_nonce") if fi.cls is not None else None
         ctx.need(nf is not None and params(nf), "_construct_nonce is not a method of the security context taking the partial IV")
         # Same value in the window and in the nonce: on every modelled path to a _construct_nonce call on which a
         # number was taken from a partial IV, the bytes converted and the bytes handed to the nonce come from the same
-        # definition (copies `a = b` are looked through; a redefinition of either in between breaks the identity).
-        wnodes = {}
-
-        def defs_of(name):
-            if name not in wnodes:
-                wnodes[name] = {k: w for w in writes_to_name(fi.node, name) for k in cfg.locate(w)}
-            return wnodes[name]
-
-        def origin(name, nodes, upto, depth=0):
-            for j in range(upto - 1, -1, -1):
-                w = defs_of(name).get(nodes[j])
-                if w is not None:
-                    if depth < 6 and isinstance(w, ast.Assign) and len(w.targets) == 1 and isinstance(w.targets[0], ast.Name) and isinstance(w.value, ast.Name):
-                        return origin(w.value.id, nodes, j, depth + 1)
-                    return ("def", id(w))
-            return ("entry", name)
-
-        for w, v, extra in conv:
+        # root definition (a redefinition of either in between breaks the identity).
+        for w, v, nm in conv:
             piv = big_endian_source(fi.node, v)
             ctx.ob("the sequence number is the big-endian integer of the partial IV", piv is not None, fi, w)
             if piv is None:
@@ -1379,16 +1545,13 @@ def a(ctx):
                     ok = False
                     break
                 cn = cfg.loc1(c)
-                for p in pm.paths_through(cn):
-                    i = p.nodes.index(cn)
+                for p, i, st in sf.states_at(cn):
                     if wn not in p.nodes[:i]:
                         continue
                     j = max(k for k, n in enumerate(p.nodes[:i]) if n == wn)
-                    if any(n in defs_of(checked.id) for n in p.nodes[j + 1:i]):
+                    if any(any(b[0] == nm for b in sf.V.binds(n)) for n in p.nodes[j + 1:i]):
                         continue  # the number was redefined later on this path: another definition is in force
-                    if any(pm.truth(x, p) is (not pol) for x, pol, _d in extra):
-                        continue  # the other arm of the conditional expression was taken
-                    if origin(piv.id, p.nodes, j) != origin(a0.id, p.nodes, i):
+                    if sf.state(p, j).origin_of(piv.id) != st.origin_of(a0.id):
                         bad = bad or p
             ctx.ob("the partial IV that is checked is the one that feeds the AEAD nonce", ok and bad is None, fi, w,
                    detail=None if bad is None else "path: %s" % pm.describe(bad))
@@ -1844,7 +2007,7 @@ def d(ctx):
     # _load: "unknown" leaves the window uninitialised.  Decided over the *unit* of _load: the function together with
     # the methods of its own class it calls through self (a part of _load that was moved into a helper the engine
     # could not expand -- e.g. one with a `return` inside try/except -- is still part of loading).
-    unit = call_unit(prog, prog.func(FSC + "._load"))
+    unit = call_unit(prog, prog.func(FSC + "._load"), view=lambda f_: desugared(prog, f_))
 
     def direct_inits(f):
         out = {}
@@ -1893,22 +2056,27 @@ def d(ctx):
                 return False
         return isinstance(e, ast.Constant) and e.value == "unknown"
 
+    def unknown_fact(f, e, pol):
+        """Does the atomic branch outcome (e, pol) state that the persisted value IS the marker "unknown"?"""
+        if not (isinstance(e, ast.Compare) and len(e.ops) == 1):
+            return False
+        op, l, r = e.ops[0], e.left, e.comparators[0]
+        if isinstance(op, (ast.Eq, ast.NotEq)):
+            return (is_unknown(f, l) or is_unknown(f, r)) and isinstance(op, ast.Eq) == pol
+        if isinstance(op, (ast.In, ast.NotIn)):
+            r = resolve_local(f.node, r)
+            if isinstance(r, (ast.Tuple, ast.List, ast.Set)) and len(r.elts) == 1:
+                return is_unknown(f, r.elts[0]) and isinstance(op, ast.In) == pol
+        return False
+
     n_unknown = 0
     for short, (f, _) in sorted(unit.items()):
         fcfg = cfg_of(f)
         for n in fcfg.nodes:
-            if n.kind not in ("T", "F") or not isinstance(n.ast, ast.Compare) or len(n.ast.ops) != 1:
+            if n.kind not in ("T", "F") or not isinstance(n.ast, ast.expr):
                 continue
-            op, l, r = n.ast.ops[0], n.ast.left, n.ast.comparators[0]
-            if isinstance(op, (ast.Eq, ast.NotEq)):
-                hit = is_unknown(f, l) or is_unknown(f, r)
-                eq = isinstance(op, ast.Eq)
-            elif isinstance(op, (ast.In, ast.NotIn)) and isinstance(r, (ast.Tuple, ast.List, ast.Set)) and len(r.elts) == 1:
-                hit = is_unknown(f, r.elts[0])
-                eq = isinstance(op, ast.In)
-            else:
-                continue
-            if not hit or eq != (n.kind == "T"):
+            # the outcome of the branch, a named condition being read as the condition it names
+            if not any(unknown_fact(f, x, xp) for x, xp, _d in expand_fact(f.node, n.ast, n.kind == "T")):
                 continue
             n_unknown += 1
             found = hits_from(f, {n.id}, set())
@@ -1917,9 +2085,13 @@ def d(ctx):
     wins = [(f, n) for short, (f, _) in sorted(unit.items()) for k, n in stores_to(f.node, "self.recipient_replay_window") if k == "assign"]
     ctx.floor("assignments of recipient_replay_window in _load", len(wins), 1)
     for f, w in wins:
-        v = w.value
-        cn = chain(v.func) if isinstance(v, ast.Call) else None
-        ctx.ob("the file-backed context's window is a ReplayWindow", cn is not None and prog.resolve_in_module(f.module, cn) == "aiocoap.oscore.ReplayWindow", f, w)
+        # the object stored, however many locals it went through; every reaching definition when there are several
+        vals = _local_values(f.node, w.value)
+        ok = bool(vals)
+        for v in vals:
+            cn = chain(v.func) if isinstance(v, ast.Call) else None
+            ok = ok and cn is not None and prog.resolve_in_module(f.module, cn) == "aiocoap.oscore.ReplayWindow"
+        ctx.ob("the file-backed context's window is a ReplayWindow", ok, f, w)
 
 
 # ---------------------------------------------------------------------------
@@ -1941,16 +2113,25 @@ def f_own_piv(ctx):
     fi = desugared(ctx.prog, ctx.prog.func(UNP))
     cfg = cfg_of(fi)
     sf = window_site_facts(ctx.prog, fi)
-    names = set()
-    for c in calls_in(fi.node):
-        if isinstance(c.func, ast.Attribute) and c.func.attr in ("is_valid", "strike_out", "initialize_from_freshlyseen") and c.args:
-            a0 = c.args[0]
-            if isinstance(a0, ast.Name):
-                names.add(a0.id)
-    ctx.ob("one variable carries the sequence number to the replay window", len(names) == 1, fi, fi.node, construct="unprotect: window argument", detail=str(sorted(names)))
-    if len(names) != 1:
-        return
-    S = next(iter(names))
+    # The definitions in question are found by def-use, not by name: the root definitions (copies looked through) that
+    # reach the argument of a window call on some modelled path.  An argument that is not a local is its own definition.
+    sites = [c for c in calls_in(fi.node) if isinstance(c.func, ast.Attribute) and c.func.attr in ("is_valid", "strike_out", "initialize_from_freshlyseen")]
+    defs = {}  # key -> (pin statement, value expr | None, CFG node)
+    for c in sites:
+        a0 = _arg0(c, ctx.prog)
+        if a0 is None:
+            continue
+        nid = cfg.loc1(c)
+        if not isinstance(a0, ast.Name):
+            defs[("arg", id(a0))] = (c, a0, nid)
+            continue
+        for p, i, st in sf.states_at(nid):
+            o = st.origin_of(a0.id)
+            if o[0] == "def":
+                w, v, _nm = sf.V.defsite[o]
+                defs[o] = (w, v, cfg.loc1(w))
+            else:
+                defs[("entry", a0.id)] = (c, None, nid)
     # the map of unprotected header fields: third element of what _extract_encrypted0 returns
     U = None
     for n in walk_no_nested(fi.node):
@@ -1970,32 +2151,26 @@ def f_own_piv(ctx):
         return None
 
     def reaching(name, nid):
-        """value expressions of the definitions of local `name` that reach node nid on some modelled path
-        (None in the list: some path brings no definition, or one the rule cannot read)"""
-        wnodes = {}
-        for w in writes_to_name(fi.node, name):
-            for k in cfg.locate(w):
-                wnodes[k] = w
+        """value expressions of the root definitions (copies looked through) of local `name` that reach node nid on
+        some modelled path (None in the list: some path brings no definition, or one the rule cannot read)"""
         out = {}
-        for p in sf.pm.paths_through(nid):
-            last = None
-            for n in p.nodes[:p.nodes.index(nid)]:
-                if n in wnodes:
-                    last = wnodes[n]
-            if last is None or not (isinstance(last, ast.Assign) and len(last.targets) == 1 and isinstance(last.targets[0], ast.Name)):
+        for p, i, st in sf.states_at(nid):
+            o = st.origin_of(name)
+            v = sf.V.defsite[o][1] if o[0] == "def" else None
+            if v is None:
                 out[None] = None
             else:
-                out[id(last)] = last.value
+                out[o] = v
         return list(out.values())
 
-    ws = writes_to_name(fi.node, S)
-    ctx.floor("definitions of the window number in unprotect", len(ws), 1)
+    ctx.floor("definitions of the window number in unprotect", len(defs), 1)
     n_taken = 0
-    for w in ws:
-        ctx.need(isinstance(w, ast.Assign) and len(w.targets) == 1 and isinstance(w.targets[0], ast.Name), "the window number is bound by something other than a plain assignment: %s" % stmt_text(w))
-        nid = cfg.loc1(w)
+    for key, (w, value, nid) in sorted(defs.items(), key=lambda kv: (getattr(kv[1][0], "lineno", 0), getattr(kv[1][0], "col_offset", 0), str(kv[0][0]))):
+        if value is None:
+            ctx.ob("the number handed to the replay window is defined by an assignment in unprotect", False, fi, w)
+            continue
         # `x = A if c else B` is two definitions, each under its arm's condition
-        for v, extra in value_alts(fi.node, w.value):
+        for v, extra in value_alts(fi.node, value):
             if isinstance(v, ast.Constant) and v.value is None:
                 ctx.ob("without an own partial IV nothing is struck out or initialised (sentinel None)", True, fi, w)
                 continue
@@ -2015,7 +2190,7 @@ def f_own_piv(ctx):
             if not own and src_ok:
                 own = all(k == "strict" for k in kinds)
                 if not own and isinstance(P, ast.Name):
-                    own = has_fact(sf.at(nid) + extra, "%s is not None" % P.id, True)
+                    own = has_fact(sf.at(nid) + extra, "%s is not None" % P.id, True) or sf.notnone_at(nid, P.id)
             ctx.ob("a window number is taken only from a message that carries its own partial IV", own, fi, w, detail="branch outcomes passed: %s" % show_facts(passed))
             ctx.ob("that number is the integer value of the partial IV found in the OSCORE option", src_ok, fi, w,
                    detail="partial IV definitions reaching the conversion: %s" % [stmt_text(x) if x is not None else "<none/unreadable>" for x in srcs])
@@ -2082,7 +2257,9 @@ R.seed("C12.e", F, "        if self.replay_window_persisted:\n            # Just
 # seeds for the path-sensitive readings (they must keep biting where the shape no longer matters)
 R.seed("C12.a", F, "if not is_response and seqno is not None and replay_error is None:", "if (not is_response and seqno is not None) or replay_error is None:", "guards joined by `or`: none of them holds on every path to strike_out")
 R.seed("C12.a", F, "            seqno = int.from_bytes(partial_iv_short, \"big\")\n", "            seqno = int.from_bytes(partial_iv_short, \"big\")\n            partial_iv_short = partial_iv_short.lstrip(b\"\\0\")\n", "the nonce is built from other bytes than the number checked")
-R.seed("C12.b", F, "            if protected_message.code.is_request():\n                # Either accept", "            if protected_message.code.is_request() and seqno is not None:\n                # Either accept", "a request can fall into the response arm of the recovery: window initialised without Echo")
+# (the earlier form of this seed, `is_request() and seqno is not None`, is NOT a fault: the else arm re-tests the same
+# unchanged local, so a request still cannot reach the initialisation there -- the value-aware path model sees that)
+R.seed("C12.b", F, "            if protected_message.code.is_request():\n                # Either accept", "            if protected_message.code.is_request() and unprotected_message.opt.echo is not None:\n                # Either accept", "a request without Echo option falls into the response arm of the recovery: window initialised from a possibly replayed number")
 R.seed("C12.c", F, "        overshoot = number - (self._index + self._size - 1)\n        if overshoot > 0:\n            self._index += overshoot\n            self._bitfield >>= overshoot\n        assert self.is_valid(number), \"Sequence number was not valid before strike-out\"\n        self._bitfield |= 1 << (number - self._index)\n",
        "        overshoot = number - (self._index + self._size - 1)\n        mask = 1 << (number - self._index)\n        if overshoot > 0:\n            self._index += overshoot\n            self._bitfield >>= overshoot\n        self._bitfield |= mask\n", "bit mask computed before the window is shifted")
 R.seed("C12.c", F, "        self._index = seen\n        self._bitfield = 1", "        self._index, self._bitfield = 1, seen", "tuple assignment with the fields swapped")
@@ -2091,3 +2268,19 @@ R.seed("C12.d", F, "secctx=self, request_id=request_id, echo=self.echo_recovery"
 R.seed("C12.f", F, "            seqno = int.from_bytes(partial_iv_short, \"big\")\n", "            seqno = int.from_bytes(request_id.partial_iv if is_response else partial_iv_short, \"big\")\n", "a response with its own PIV is numbered by the request's")
 
 R.seed("C12.f", F, "            seqno = None  # sentinel for not striking out anything\n", "            seqno = int.from_bytes(request_id.partial_iv, \"big\")\n", "response without PIV: window initialised from the request's (our own) number")
+
+# seeds for the value-aware readings: a decision carried in a sentinel / flag / copy must still be the right decision
+R.seed("C12.a", F, _STRIKE,
+       "        to_strike = None\n        if not is_response and seqno is not None:\n            to_strike = seqno\n        if to_strike is not None:\n            self.recipient_replay_window.strike_out(to_strike)\n",
+       "sentinel form of the strike-out decision that forgot the pending verdict")
+R.seed("C12.a", F, _STRIKE,
+       "        do_strike = False\n        if replay_error is None:\n            do_strike = seqno is not None\n        if do_strike:\n            self.recipient_replay_window.strike_out(seqno)\n",
+       "flag form of the strike-out decision that forgot the request side")
+R.seed("C12.a", F, _STRIKE,
+       "        if not is_response and seqno is not None and replay_error is None:\n            struck = int.from_bytes(nonce, \"big\")\n            self.recipient_replay_window.strike_out(struck)\n",
+       "another number than the one tested is struck out")
+R.seed("C12.b", F, "        try_initialize = (\n            not self.recipient_replay_window.is_initialized()\n            and self.echo_recovery is not None\n        )\n",
+       "        try_initialize = (\n            True if self.echo_recovery is not None else not self.recipient_replay_window.is_initialized()\n        )\n",
+       "predicate as a conditional expression that no longer requires an uninitialised window")
+R.seed("C12.f", F, "            seqno = None  # sentinel for not striking out anything\n", "            seqno = None\n            own = int.from_bytes(request_id.partial_iv, \"big\")\n            seqno = own\n",
+       "the request's number reaches the window through a copy")
